@@ -14,7 +14,11 @@ from nix_manipulator.expressions.expression import NixExpression, TypedExpressio
 from nix_manipulator.expressions.inherit import Inherit
 from nix_manipulator.expressions.layout import empty_line
 from nix_manipulator.expressions.scope import ScopeLayer, ScopeState
-from nix_manipulator.expressions.set import _collect_attrpath_order, _render_bindings
+from nix_manipulator.expressions.set import (
+    _collect_attrpath_order,
+    _reconcile_attrpath_order,
+    _render_bindings,
+)
 from nix_manipulator.expressions.trivia import (
     append_gap_between_offsets,
     apply_trailing_trivia,
@@ -219,8 +223,8 @@ class LetExpression(TypedExpression):
                 indent=indent,
             )
 
-        render_values = (
-            self.attrpath_order if self.attrpath_order else self.local_variables
+        render_values = _reconcile_attrpath_order(
+            self.local_variables, self.attrpath_order
         )
         bindings_str = "\n".join(
             _render_bindings(render_values, indent=indented, inline=False)
